@@ -67,6 +67,11 @@ def record_one(task):
     out = []
     for j in range(3):
         I = g.instance(S)
+        if rng.random() < 0.25:
+            # an instance whose objects grow a member whenever a missing one is merely looked up (defaultdict-like):
+            # every keyword sees the object as it was given
+            from harness.c07 import autoviv
+            I = autoviv(I)
         try:
             rec, plain = errrec.make_record(i * 3 + j, d, cls, S, I, loc=loc, with_restr=True)
             out.append(("rec", rec, S, I, plain))
